@@ -61,6 +61,7 @@ type storedSpec struct {
 	splitCC        bool // the directives on two Cache-Control field lines (several lines are one list)
 	badFirstCCLine bool // a Cache-Control line with an unterminated quoted-string in front of the real one
 	bsFirst        bool // an element ending in a backslash OUTSIDE a quoted-string in front of the directives
+	rfc850         bool // Expires and Last-Modified in the obsolete rfc850 layout (valid: recipients must accept it)
 	zeroDate       bool // Date: Mon, 01 Jan 0001 00:00:00 GMT (Go's zero time, a valid HTTP-date of a response two millennia old)
 	delayNs        int64
 	extra          Hdr
@@ -132,6 +133,7 @@ func (g *G) genStored(focus string) storedSpec {
 	s.noDate = g.chance(0.06)
 	s.badFirstCCLine = g.chance(0.03)
 	s.bsFirst = g.chance(0.03)
+	s.rfc850 = g.chance(0.12)
 	s.zeroDate = !s.noDate && g.chance(0.03)
 	if g.chance(0.2) {
 		s.delayNs = pick(g, int64(1), sec, 2*sec, 3*sec+1)
@@ -201,11 +203,19 @@ func (s storedSpec) reply(atNs int64, body string) Reply {
 		h = append(h, [2]string{"Expires", time.Unix(dateSec+7200, 0).UTC().Format("Monday, 02-Jan-06 15:04:05") + " " + s.zone})
 	default:
 		off, _ := strconv.ParseInt(s.expiresOff, 10, 64)
-		h = append(h, [2]string{"Expires", httpDate(dateSec + off)})
+		if s.rfc850 {
+			h = append(h, [2]string{"Expires", rfc850Date(dateSec + off)})
+		} else {
+			h = append(h, [2]string{"Expires", httpDate(dateSec + off)})
+		}
 	}
 	if s.lmOff != "" {
 		off, _ := strconv.ParseInt(s.lmOff, 10, 64)
-		h = append(h, [2]string{"Last-Modified", httpDate(dateSec - off)})
+		if s.rfc850 {
+			h = append(h, [2]string{"Last-Modified", rfc850Date(dateSec - off)})
+		} else {
+			h = append(h, [2]string{"Last-Modified", httpDate(dateSec - off)})
+		}
 	}
 	if s.age != "" {
 		if strings.HasPrefix(s.age, ",") {
@@ -411,4 +421,9 @@ func pick2(key, a, b string) string {
 		return a
 	}
 	return b
+}
+
+// rfc850Date: "Sunday, 06-Nov-94 08:49:37 GMT"
+func rfc850Date(unix int64) string {
+	return time.Unix(unix, 0).UTC().Format("Monday, 02-Jan-06 15:04:05") + " GMT"
 }
